@@ -755,3 +755,46 @@ V("c17d-amplitude-map-unchecked", "C17", {"rule": "C17d", "contains": "state_vec
   (FFSTEPS, "                if len(occ_numbers) != state._d or not all_zero_or_one(occ_numbers):", "                if len(occ_numbers) != state._d:"))
 V("c17d-gaussian-unchecked", "C17", {"rule": "C17d", "contains": "state_vector"},
   (FGSTEPS, "    if state._config.validate and not all_zero_or_one(occupation_numbers):\n        raise InvalidParameter(\n            f\"Invalid initial state specified: instruction={instruction}\"\n        )\n\n    state._set_occupation_numbers", "    state._set_occupation_numbers"))
+
+# ------------------------------------------------------------------------------------------- C10
+GRADS = "piquasso/_math/gradients.py"
+GATEM = "piquasso/_math/gate_matrices.py"
+PURESTEPS = "piquasso/_simulators/fock/pure/simulation_steps/__init__.py"
+PASSLIN = "piquasso/_simulators/fock/pure/simulation_steps/passive_linear.py"
+V("c10a-displacement-r-sign", "C10", {"rule": "C10a", "contains": "displacement_gradient|d/dr"},
+  (GRADS, "        r_grad = -r * transformation + row_term - col_term\n", "        r_grad = -r * transformation + row_term + col_term\n"))
+V("c10a-displacement-phi-missing-r", "C10", {"rule": "C10a", "contains": "displacement_gradient|d/dphi"},
+  (GRADS, "        phi_grad = (row_term + col_term) * r * 1j\n", "        phi_grad = (row_term + col_term) * 1j\n"))
+V("c10a-squeezing-prefactor", "C10", {"rule": "C10a", "contains": "squeezing_gradient|d/dr"},
+  (GRADS, "            (-tanhr * 0.5) * transformation\n", "            (-tanhr) * transformation\n"))
+V("c10a-squeezing-middle-term-sech2", "C10", {"rule": "C10a", "contains": "squeezing_gradient|d/dr"},
+  (GRADS, "            - (sechr * tanhr)\n", "            - (sechr**2 * tanhr)\n"))
+V("c10a-squeezing-roll-by-one", "C10", {"rule": "C10a", "contains": "squeezing_gradient"},
+  (GRADS, "        row_rolled_transformation = np.roll(transformation, 2, axis=0)\n", "        row_rolled_transformation = np.roll(transformation, 1, axis=0)\n"))
+V("c10a-squeezing-phi-sign", "C10", {"rule": "C10a", "contains": "squeezing_gradient|d/dphi"},
+  (GRADS, "        phi_grad = -0.5j * tanhr * (row_term + col_term)\n", "        phi_grad = -0.5j * tanhr * (row_term - col_term)\n"))
+V("c10a-cotangents-swapped", "C10", {"rule": "C10a", "contains": "displacement_gradient|d/d"},
+  (GRADS, "        return (r_grad_sum, phi_grad_sum)\n\n    return displacement_matrix_gradient", "        return (phi_grad_sum, r_grad_sum)\n\n    return displacement_matrix_gradient"))
+V("c10a-forward-convention-changed", "C10", {"rule": "C10a", "contains": "convention"},
+  (GATEM, "    displacement = r * np.exp(1j * phi)\n", "    displacement = r * np.exp(-1j * phi)\n"))
+V("c10d-static-arm-no-conj", "C10", {"rule": "C10d", "contains": "pairing"},
+  (GRADS, "            r_grad_sum = tf.constant(np.real(np.sum(upstream * np.conj(r_grad))))\n            phi_grad_sum = tf.constant(np.real(np.sum(upstream * np.conj(phi_grad))))\n        else:\n            r_grad_sum = tf.math.real(tf.reduce_sum(upstream * tf.math.conj(r_grad)))\n            phi_grad_sum = tf.math.real(\n                tf.reduce_sum(upstream * tf.math.conj(phi_grad))\n            )\n\n        return (r_grad_sum, phi_grad_sum)\n\n    return displacement_matrix_gradient",
+   "            r_grad_sum = tf.constant(np.real(np.sum(upstream * r_grad)))\n            phi_grad_sum = tf.constant(np.real(np.sum(upstream * np.conj(phi_grad))))\n        else:\n            r_grad_sum = tf.math.real(tf.reduce_sum(upstream * tf.math.conj(r_grad)))\n            phi_grad_sum = tf.math.real(\n                tf.reduce_sum(upstream * tf.math.conj(phi_grad))\n            )\n\n        return (r_grad_sum, phi_grad_sum)\n\n    return displacement_matrix_gradient"))
+V("c10a-terms-reordered", "C10", "silent",
+  (GRADS, "        r_grad = -r * transformation + row_term - col_term\n", "        r_grad = row_term - col_term - r * transformation\n"))
+V("c10a-half-first", "C10", "silent",
+  (GRADS, "            (-tanhr * 0.5) * transformation\n", "            (-0.5 * tanhr) * transformation\n"))
+V("c10a-sech-inline", "C10", "silent",
+  (GRADS, "            - (sechr**2 * 0.5) * (row_term - col_term)\n", "            - (0.5 / np.cosh(r) ** 2) * (row_term - col_term)\n"))
+V("c10b-batch-spec-transposed", "C10", {"rule": "C10b", "contains": "vjp wrt matrix"},
+  (PURESTEPS, "        matrix_einsum_string = \"ijl,kjl->ki\" if is_batch else \"ij,kj->ki\"\n", "        matrix_einsum_string = \"ijl,kjl->ik\" if is_batch else \"ij,kj->ki\"\n"))
+V("c10b-matrix-not-conjugated", "C10", {"rule": "C10b", "contains": "vjp wrt state_vector"},
+  (PURESTEPS, "        conjugated_matrix = np.conj(matrix)\n", "        conjugated_matrix = matrix\n"))
+V("c10b-passive-state-spec", "C10", {"rule": "C10b", "contains": "passive_gate_gradient_function|vjp wrt state_vector"},
+  (PASSLIN, "        initial_state_einsum_string = \"ji,jkl->ikl\" if is_batch else \"ji,jk->ik\"\n", "        initial_state_einsum_string = \"ij,jkl->ikl\" if is_batch else \"ij,jk->ik\"\n"))
+V("c10c-passive-cotangents-swapped", "C10", {"rule": "C10c", "contains": "cotangent order"},
+  (PASSLIN, "        return gradient_by_initial_state, gradient_by_matrix\n", "        return gradient_by_matrix, gradient_by_initial_state\n"))
+V("c10b-letters-renamed", "C10", "silent",
+  (PURESTEPS, "        initial_state_einsum_string = \"ji,jkl->ikl\" if is_batch else \"ji,jk->ik\"\n", "        initial_state_einsum_string = \"ab,acd->bcd\" if is_batch else \"ab,ac->bc\"\n"))
+V("c10b-conjugate-spelling", "C10", "silent",
+  (PURESTEPS, "        conjugated_matrix = np.conj(matrix)\n", "        conjugated_matrix = np.conjugate(matrix)\n"))
